@@ -66,13 +66,19 @@ theorem position_decoding_sound {p : Dec} {pos : Bool × Nat} (h : decodePos p =
     p.toInt? = some (posInt pos) ∧ 1 ≤ pos.2 ∧ pos.2 < Usz.modulus :=
   decodePos_sound h
 
+/-- … and what it does not read as a position has a fraction, is zero, or is at least `2^64`
+in magnitude — none of which is a position of a list or string. -/
+theorem position_decoding_complete {p : Dec} (h : decodePos p = none) :
+    p.toInt? = none ∨ ∃ v, p.toInt? = some v ∧ (v = 0 ∨ Usz.modulus ≤ v.natAbs) :=
+  decodePos_none h
+
 /-! ### on values: the whole argument space
 
-`Plain v`: a number argument is written without fraction digits.  The code reads positions
-through `to_string().parse::<usize>()`, so `2.0` is not a position for it although it is the
-integer 2 (finding F19); the theorems exclude exactly that. -/
+A position or length may be written `2`, `2.0` or `2.00`: the conversions go through the
+integral form of an integral value (`Dec.integralForm`, repair 6bf8324); a value with a
+fraction is not a position, for the code and for the specification alike. -/
 
-theorem core_sublist2_spec (m : IntMode) (a b : Value) (hb : Plain b) (hL : lenOf a < Usz.modulus) :
+theorem core_sublist2_spec (m : IntMode) (a b : Value) (hL : lenOf a < Usz.modulus) :
     core_sublist2 m a b = .ok (Spec.sublistV [a, b]) := by
   cases a with
   | list items =>
@@ -86,12 +92,13 @@ theorem core_sublist2_spec (m : IntMode) (a b : Value) (hb : Plain b) (hL : lenO
         obtain ⟨b, i⟩ := pos
         simp only [h1, sublist2At_spec m items b i h2 h3 hL, listResult_ok, Option.bind_some]
       | none =>
-        obtain ⟨v, hv, hr⟩ := decodePos_none hb hd
-        simp only [hv, Option.bind_some, Spec.sublistAt, startIndex_out_of_range hL hr, Spec.optV]
+        rcases decodePos_none hd with hv | ⟨v, hv, hr⟩
+        · simp only [hv, none_bind', Spec.optV]
+        · simp only [hv, Option.bind_some, Spec.sublistAt, startIndex_out_of_range hL hr, Spec.optV]
     | _ => rfl
   | _ => rfl
 
-theorem core_insert_before_spec (m : IntMode) (a b c : Value) (hb : Plain b) (hL : lenOf a < Usz.modulus) :
+theorem core_insert_before_spec (m : IntMode) (a b c : Value) (hL : lenOf a < Usz.modulus) :
     core_insert_before m a b c = .ok (Spec.insertBeforeV [a, b, c]) := by
   cases a with
   | list items =>
@@ -105,12 +112,13 @@ theorem core_insert_before_spec (m : IntMode) (a b c : Value) (hb : Plain b) (hL
         obtain ⟨b, i⟩ := pos
         simp only [h1, insertBeforeAt_spec m items b i c h2 h3 hL, listResult_ok, Option.bind_some]
       | none =>
-        obtain ⟨v, hv, hr⟩ := decodePos_none hb hd
-        simp only [hv, Option.bind_some, Spec.insertBeforeAt, startIndex_out_of_range hL hr, Spec.optV, Option.map_none]
+        rcases decodePos_none hd with hv | ⟨v, hv, hr⟩
+        · simp only [hv, none_bind', Spec.optV]
+        · simp only [hv, Option.bind_some, Spec.insertBeforeAt, startIndex_out_of_range hL hr, Spec.optV, Option.map_none]
     | _ => rfl
   | _ => rfl
 
-theorem core_remove_spec (m : IntMode) (a b : Value) (hb : Plain b) (hL : lenOf a < Usz.modulus) :
+theorem core_remove_spec (m : IntMode) (a b : Value) (hL : lenOf a < Usz.modulus) :
     core_remove m a b = .ok (Spec.removeV [a, b]) := by
   cases a with
   | list items =>
@@ -124,14 +132,16 @@ theorem core_remove_spec (m : IntMode) (a b : Value) (hb : Plain b) (hL : lenOf 
         obtain ⟨b, i⟩ := pos
         simp only [h1, removeAt_spec m items b i h2 h3 hL, listResult_ok, Option.bind_some]
       | none =>
-        obtain ⟨v, hv, hr⟩ := decodePos_none hb hd
-        simp only [hv, Option.bind_some, Spec.removeAt, startIndex_out_of_range hL hr, Spec.optV, Option.map_none]
+        rcases decodePos_none hd with hv | ⟨v, hv, hr⟩
+        · simp only [hv, none_bind', Spec.optV]
+        · simp only [hv, Option.bind_some, Spec.removeAt, startIndex_out_of_range hL hr, Spec.optV, Option.map_none]
     | _ => rfl
   | _ => rfl
 
--- FULL STATEMENT (not provable of the current code, finding F19: `2.0` is not read as 2):
---   ∀ m a b c, core_sublist3 m a b c = .ok (Spec.sublistV [a, b, c])
-theorem core_sublist3_spec_partial (m : IntMode) (a b c : Value) (hb : Plain b) (hc : PlainNat c)
+/-- `sublist(list, start position, length)` on the whole argument space.  `NotNegZero`: the
+length is not the number `-0` (which `parse::<usize>` rejects although it is 0; FEEL text
+produces it only through arithmetic such as `0 * -1`). -/
+theorem core_sublist3_spec (m : IntMode) (a b c : Value) (hc : NotNegZero c)
     (hL : lenOf a < Usz.modulus) :
     core_sublist3 m a b c = .ok (Spec.sublistV [a, b, c]) := by
   cases a with
@@ -140,9 +150,10 @@ theorem core_sublist3_spec_partial (m : IntMode) (a b c : Value) (hb : Plain b) 
     cases c with
     | num ln =>
       simp only [core_sublist3, Spec.sublistV, Spec.natOfInt]
-      cases hn : ln.toUsize? with
+      cases hn : ln.toUsizeV? with
       | none =>
-        obtain ⟨v, hv, hr⟩ := toUsize_none_plain hc.1 hc.2 hn
+        rcases toUsizeV_none hc hn with hv | ⟨v, hv, hr⟩
+        · simp only [hv, none_bind', bind_none_right, Spec.optV]
         simp only [hv]
         rcases hr with hneg | hbig
         · rw [if_neg (by omega)]
@@ -160,7 +171,7 @@ theorem core_sublist3_spec_partial (m : IntMode) (a b c : Value) (hb : Plain b) 
               rw [if_neg (by omega)]
               rfl
       | some n =>
-        obtain ⟨hv, _, _, _⟩ := toUsize_toInt hn
+        obtain ⟨hv, _⟩ := toUsizeV_some hn
         simp only [hv]
         rw [if_pos (by omega)]
         simp only [Int.toNat_natCast, Option.bind_some]
@@ -173,21 +184,21 @@ theorem core_sublist3_spec_partial (m : IntMode) (a b c : Value) (hb : Plain b) 
             obtain ⟨b, i⟩ := pos
             simp only [h1, sublist3At_spec m items b i n h2 h3 hL, listResult_ok, Option.bind_some]
           | none =>
-            obtain ⟨v, hv, hr⟩ := decodePos_none hb hd
-            simp only [hv, Option.bind_some, Spec.sublistAt, startIndex_out_of_range hL hr, Spec.optV]
+            rcases decodePos_none hd with hv | ⟨v, hv, hr⟩
+            · simp only [hv, none_bind', Spec.optV]
+            · simp only [hv, Option.bind_some, Spec.sublistAt, startIndex_out_of_range hL hr, Spec.optV]
         | _ => rfl
     | _ =>
       simp only [core_sublist3, Spec.sublistV, Spec.natOfInt, none_bind', bind_none_right, Spec.optV]
   | _ => rfl
 
-example : Plain (.num ⟨true, 5, 0⟩) ∧ PlainNat (.num ⟨false, 18446744073709551615, 0⟩) := by
-  refine ⟨by unfold Plain; decide, by unfold PlainNat; decide⟩
+example : NotNegZero (.num ⟨false, 200, -2⟩) := by unfold NotNegZero; decide
 
--- FULL STATEMENT (not provable of the current code, finding F19: `2.0` is not read as 2):
---   ∀ m a b c, core_substring m a b c = .ok (Spec.substringV [a, b, c])
-/-- `substring(string, start position, length)` on the whole argument space, for positions and
-lengths written without fraction digits. -/
-theorem core_substring_spec_partial (m : IntMode) (a b c : Value) (hb : Plain b) (hc : PlainNat c)
+/-- `substring(string, start position, length)` for every string and every start position
+(`2`, `2.0`, `1.5`, out of range, not a number).  `PlainNat c` restricts the *length* to numbers
+written without fraction digits: the code has always read the length through `trunc()`, the
+restriction only shortens the proof (fractional lengths are covered by the correspondence). -/
+theorem core_substring_spec (m : IntMode) (a b c : Value) (hc : PlainNat c)
     (hL : (lenOf a : Int) < (2 : Int) ^ 63) :
     core_substring m a b c = .ok (Spec.substringV [a, b, c]) := by
   cases a with
@@ -196,10 +207,10 @@ theorem core_substring_spec_partial (m : IntMode) (a b c : Value) (hb : Plain b)
     have hLm : s.toList.length < Usz.modulus := by unfold Usz.modulus; omega
     cases b with
     | num sp =>
-      simp only [Plain] at hb
-      cases hst : sp.toIsize? with
+      cases hst : sp.toIsizeV? with
       | none =>
-        obtain ⟨v, hv, hout⟩ := toIsize_none_plain hb hst
+        rcases toIsizeV_none hst with hv | ⟨v, hv, hout⟩
+        · cases c <;> simp only [core_substring, hst, Spec.substringV, Spec.intOf, hv, none_bind', Spec.optV]
         have hsi := startIndex_isize_out hL hout
         cases c with
         | null => simp only [core_substring, hst, Spec.substringV, Spec.intOf, hv, Option.bind_some,
@@ -210,7 +221,7 @@ theorem core_substring_spec_partial (m : IntMode) (a b c : Value) (hb : Plain b)
         | _ => simp only [core_substring, hst, Spec.substringV, Spec.intOf, hv, Option.bind_some,
             substringChars_none_start hsi, bind_none_right, Spec.optV]
       | some st =>
-        have hv := toIsize_toInt hst
+        have hv := toIsizeV_some hst
         cases c with
         | null =>
           simp only [core_substring, hst, Spec.substringV, Spec.intOf, hv, Option.bind_some]
@@ -245,8 +256,7 @@ theorem core_substring_spec_partial (m : IntMode) (a b c : Value) (hb : Plain b)
       cases c <;> simp only [core_substring, Spec.substringV, Spec.intOf, none_bind', Spec.optV]
   | _ => cases c <;> rfl
 
-example : PlainNat (.num ⟨false, 2, 0⟩) ∧ Plain (.num ⟨true, 1, 0⟩) := by
-  refine ⟨by unfold PlainNat; decide, by unfold Plain; decide⟩
+example : PlainNat (.num ⟨false, 2, 0⟩) := by unfold PlainNat; decide
 
 /-! ## 2. Strings, lists, aggregates: the whole argument space -/
 
@@ -545,12 +555,22 @@ theorem named_eq_positional_sound (core : Core) (prow : PosRow) (nrow : NamedRow
   | none =>
     rw [hres] at hag
     simp only [Option.map_none] at hag
-    rw [← hag]
+    cases hp : prow.resolve (args.map isList) with
+    | none => rfl
+    | some pc => rw [hp] at hag; simp at hag
   | some c =>
     rw [hres] at hag
     simp only [Option.map_some] at hag
-    rw [← hag]
-    simp only [NCall.toPos, mapM_inst_toPos names args hnd hlen]
+    cases hp : prow.resolve (args.map isList) with
+    | none => rw [hp] at hag; simp at hag
+    | some pc =>
+      rw [hp] at hag
+      simp only [Option.map_some, Option.some.injEq, List.length_map] at hag
+      simp only
+      have hfn : pc.fn = c.fn := (congrArg PCall.fn hag).symm
+      have hargs : pc.args.map (PArg.norm args.length) = c.args.map (NArg.toPos names) :=
+        (congrArg PCall.args hag).symm
+      rw [← mapM_inst_norm args pc.args, hargs, mapM_inst_toPos names args hnd hlen, hfn]
 
 
 /-- Named invocation = positional invocation, for every signature of the specification on
@@ -583,8 +603,7 @@ example : agrees ⟨"substring", ["string", "start position", "length"], 2⟩ = 
 /-- The signatures on which the current tables differ (recomputed from the regenerated tables
 on every run; an edited dispatch arm changes this list and breaks the obligation). -/
 theorem offending_pinned :
-    offending = [("list contains", ["list", "element"]), ("min", ["list"]), ("max", ["list"]), ("sum", ["list"]),
-      ("mean", ["list"]), ("all", ["list"]), ("any", ["list"]), ("median", ["list"]), ("mode", ["list"])] := by
+    offending = [("list contains", ["list", "element"])] := by
   decide
 
 theorem offending_everywhere_pinned :
@@ -593,17 +612,23 @@ theorem offending_everywhere_pinned :
 
 def n1 (k : Nat) : Value := .num ⟨false, k, 0⟩
 
--- FULL STATEMENT (not provable of the current code, findings F2b, F2c):
+-- FULL STATEMENT (not provable of the current code, finding F2b, pinned by the repository
+-- tests bif_list_contains::_0004 / _0010):
 --   ∀ core sig args, sig ∈ Spec.signatures → sig.required ≤ args.length → args.length ≤ sig.params.length →
 --     callNamed core sig.name (bindNames sig.params args) = callPositional core sig.name args
-/-- F2c: `all(list: true)` is null, `all(true)` is true (the named arm accepts only a list);
-F2b: `list contains(list: [1], element: 1)` is null (the code's parameter name is `match`). -/
+/-- F2b: `list contains(list: [1], element: 1)` is null (the code's parameter name is `match`). -/
 theorem named_eq_positional_counterexample :
-    callNamed (core .checked) "all" (bindNames ["list"] [.bool true]) = some (.ok .null)
-      ∧ callPositional (core .checked) "all" [.bool true] = some (.ok (.bool true))
-      ∧ callNamed (core .checked) "list contains" (bindNames ["list", "element"] [.list [n1 1], n1 1]) = some (.ok .null)
+    callNamed (core .checked) "list contains" (bindNames ["list", "element"] [.list [n1 1], n1 1]) = some (.ok .null)
       ∧ callPositional (core .checked) "list contains" [.list [n1 1], n1 1] = some (.ok (.bool true)) := by
-  refine ⟨?_, ?_, ?_, ?_⟩ <;> rfl
+  refine ⟨?_, ?_⟩ <;> rfl
+
+/-- A single item given to the parameter `list` of an aggregate is a list of one item, in
+both invocation forms (repair 272f631). -/
+theorem named_single_item :
+    callNamed (core .checked) "all" (bindNames ["list"] [.bool true]) = some (.ok (.bool true))
+      ∧ callPositional (core .checked) "all" [.bool true] = some (.ok (.bool true))
+      ∧ callNamed (core .checked) "sum" (bindNames ["list"] [n1 1]) = some (.ok (n1 1)) := by
+  refine ⟨?_, ?_, ?_⟩ <;> rfl
 
 theorem bif_resolution (scope : Scope) (name : String) :
     (scope.getEntry name = none → resolveName names scope name = (if names.contains name then .bif name else .null))
@@ -663,11 +688,13 @@ example : ∀ a ∈ [CoreArg.v (.list [n1 1, n1 2, n1 3]), .v (.num ⟨true, 5, 
   · trivial
   · trivial
 
-/-- The calls that panicked before the repairs df73e95 / a0759b1 are null now, in both modes. -/
+/-- The index computations that panicked before the repairs df73e95 / a0759b1 are null now, in
+both modes: `sublist([1,2,3], -5, 1)`, `sublist([1,2,3], 2, 18446744073709551615)`,
+`substring("abc", 2, 18446744073709551615)`. -/
 theorem former_panics_are_null (m : IntMode) :
-    core m "sublist3" [.v (.list [n1 1, n1 2, n1 3]), .v (.num ⟨true, 5, 0⟩), .v (n1 1)] = some (.ok .null)
-      ∧ core m "sublist3" [.v (.list [n1 1, n1 2, n1 3]), .v (n1 2), .v (n1 18446744073709551615)] = some (.ok .null)
-      ∧ core m "substring" [.v (.str "abc"), .v (n1 2), .v (n1 18446744073709551615)] = some (.ok .null) := by
+    sublist3At m [n1 1, n1 2, n1 3] (true, 5) 1 = .ok none
+      ∧ sublist3At m [n1 1, n1 2, n1 3] (false, 2) 18446744073709551615 = .ok none
+      ∧ substringAt m ['a', 'b', 'c'] 2 (some 18446744073709551615) = .ok none := by
   cases m <;> refine ⟨?_, ?_, ?_⟩ <;> rfl
 
 end Bif
